@@ -245,6 +245,16 @@ def suites(tier, seed):
             if forced:
                 cases.append({"kind": "cnf", "cnf": cnf, "text": render_cnf(cnf), "protocol": "auto"})
     cases.append({"kind": "cnf", "cnf": [[EMPTY]], "text": [""], "protocol": "v1"})
+    # tags that are new-style operator words in another letter case (OR, And, NOT): ordinary tags in both dialects, so a text
+    # made of them and of commas / negation prefixes / several words is pure old style
+    for word in ("OR", "And", "NOT", "Or", "nOt"):
+        for neg in (False, True):
+            w = (neg, word, ("-", False) if neg else ("", False), None)
+            for cnf in ([[(False, "a", ("", False), None), (False, "foo", ("", False), None)], [w]],
+                        [[(False, "a", ("", False), None)], [w], [(False, "foo", ("", True), None)]],
+                        [[w, (False, "a", ("", False), None)]],
+                        [[w], [(True, "b.c", ("~", False), None)]]):
+                add_cnf(cnf)
     for _ in range(1200 if thorough else 250):
         t = rnd_tree(rnd, rnd.randint(1, 3))
         if t[0] in ("lit",):
